@@ -6,7 +6,6 @@ import IQE.Engine.Pruning
 import IQE.Engine.Filter
 import IQE.Core.Utf8
 open Lean IQE IQE.Spec IQE.Engine IQE.Engine.Pruning
-open IQE.Gen.Pruning (BinaryOp)
 namespace Driver.C05
 
 /-
@@ -115,6 +114,17 @@ def firstSome {α} (l : List (Option α)) : Option α := l.findSome? id
 
 def floatCorner (v : Val) : Bool := match v with | .f64 x => x.isNaN || x.isZero | _ => false
 
+def opdZeroLit : Opd → Bool | .lit (.f64 x) => x.isZero | _ => false
+/-- the predicate holds a float literal that is a zero (its sign is visible to the kernels' total order, not to IEEE statistics) -/
+def zeroLit : PE → Bool
+  | .cmp _ l r => opdZeroLit l || opdZeroLit r
+  | .and a b => zeroLit a || zeroLit b
+  | .or a b => zeroLit a || zeroLit b
+  | .not e => zeroLit e
+  | .between e lo hi _ => opdZeroLit e || opdZeroLit lo || opdZeroLit hi
+  | .inList e items _ => opdZeroLit e || items.any opdZeroLit
+  | .other => false
+
 def cellOfVal : Val → Cell
   | .int n => .int n | .date n => .int n | .f64 x => .f64 x | .str s => .str ⟨s.toUTF8.toList⟩ | _ => .null
 
@@ -180,10 +190,12 @@ def handler : Driver.Handler := fun c i => do
         else if passes Pruning.Dev.none masks then none      -- C05-F1 / C05-F2 are fixed (e356a0a): a recurrence is a violation
         else
           -- float statistics follow IEEE order without NaN, the predicate follows the total order: neutralise by removing the rows that hold NaN / a zero
+          -- (a zero float literal makes an integer 0 cell a corner too: it is widened to +0.0)
+          let corner (v : Val) : Bool := floatCorner v || (zeroLit pe && v == .int 0)
           let ms' := (rgsRows.zip mMasks).map (fun (rows, m) => match m with
-            | .ok vs => Out.ok (((rows.zip vs).filter (fun (r, _) => !r.any floatCorner)).map (·.2))
+            | .ok vs => Out.ok (((rows.zip vs).filter (fun (r, _) => !r.any corner)).map (·.2))
             | .err => .err)
-          if rgsRows.any (fun rows => rows.any (fun r => r.any floatCorner)) && passes Pruning.Dev.none ms' then some "C05-F3" else none
+          if rgsRows.any (fun rows => rows.any (fun r => r.any corner)) && passes Pruning.Dev.none ms' then some "C05-F3" else none
       match a with
       | some id => attr := some id
       | none => unattributed := true
